@@ -593,6 +593,75 @@ def r07t(rep, prog, only_files=None):
     return n
 
 
+def _nonempty_atomizer(prog, key_of):
+    """atoms 'ne' (container with key key_of is non-empty) from !X.empty(), X.size() > 0 / != 0 / >= 1, X.begin() != X.end()"""
+    def atomize(leaf):
+        s_ = leaf.strip_all()
+        if s_.k == 'CXXMemberCallExpr' and s_.callee and s_.callee['name'] == 'empty' and s_.object_arg() is not None and ex.key(s_.object_arg()) == key_of:
+            return ex.f_not(ex.f_atom('ne'))
+        if s_.k == 'BinaryOperator' and s_.op in ('>', '!=', '>=', '==', '<', '<=') and len(s_.c) == 2:
+            l_, r_, op = s_.c[0].strip_all(), s_.c[1].strip_all(), s_.op
+            if r_.k == 'CXXMemberCallExpr' and l_.cv is not None:
+                l_, r_ = r_, l_
+                op = {'>': '<', '<': '>', '>=': '<=', '<=': '>=', '==': '==', '!=': '!='}[op]
+            if l_.k == 'CXXMemberCallExpr' and l_.callee and l_.callee['name'] == 'size' and l_.object_arg() is not None and ex.key(l_.object_arg()) == key_of and r_.cv is not None:
+                ne = ex.f_atom('ne')
+                if (op, r_.cv) in (('>', 0), ('!=', 0), ('>=', 1)):
+                    return ne
+                if (op, r_.cv) in (('==', 0), ('<', 1), ('<=', 0)):
+                    return ex.f_not(ne)
+        if s_.k == 'CXXOperatorCallExpr' and s_.op in ('==', '!=') and len(s_.c) == 3:
+            a_, b_ = s_.c[1].strip_all(), s_.c[2].strip_all()
+            names = {x.callee['name'] for x in (a_, b_) if x.k == 'CXXMemberCallExpr' and x.callee and x.object_arg() is not None and ex.key(x.object_arg()) == key_of}
+            if names in ({'begin', 'end'}, {'cbegin', 'cend'}):
+                return ex.f_atom('ne') if s_.op == '!=' else ex.f_not(ex.f_atom('ne'))
+        return None
+    return atomize
+
+
+def r07u(rep, prog, only_files=None, only_members=None):
+    """front() / back() of a container that is empty for a valid value (the zero vector has no coordinates; a graph without vertices has empty
+    tables) are only evaluated where the container was tested non-empty; the same for dereferencing std::max_element / min_element of a
+    range over it.  On an empty std::vector they read through a null / dangling pointer."""
+    from .c10 import guards_formula, implies
+    n = 0
+    what = 'front() / back() / *max_element are evaluated only for a non-empty container'
+    for fn in prog.functions:
+        if fn.implicit or fn.body is None or fn.cfg is None or not (fn.file.startswith(env.REPO + '/include') or fn.file.startswith(env.WITNESS + '/positive')):
+            continue
+        if only_files and not any(x in fn.file for x in only_files):
+            continue
+        for d in fn.walk():
+            cont = None
+            if d.k == 'CXXMemberCallExpr' and d.callee and d.callee['name'] in ('front', 'back') and d.object_arg() is not None and \
+                    ((prog.base_type(d.object_arg().strip_all().j.get('t')) or {}).get('rec') or '') in ('std::vector', 'std::deque', 'std::list', 'std::basic_string'):
+                cont = d.object_arg()
+            if d.k in ('CXXOperatorCallExpr', 'UnaryOperator') and d.op == '*':
+                inner = (d.c[1] if d.k == 'CXXOperatorCallExpr' and len(d.c) > 1 else d.c[0]).strip_all()
+                if inner.k == 'CallExpr' and inner.callee and inner.callee['g'] in ('std::max_element', 'std::min_element') and inner.args():
+                    b0 = inner.args()[0].strip_all()
+                    if b0.k == 'CXXMemberCallExpr' and b0.callee and b0.callee['name'] in ('begin', 'cbegin') and b0.object_arg() is not None:
+                        cont = b0.object_arg()
+            if cont is None:
+                continue
+            if only_members is not None:
+                o_ = cont.strip_all()
+                if not (o_.k == 'MemberExpr' and o_.decl and o_.decl.get('name') in only_members):
+                    continue
+            n += 1
+            k_ = ex.key(cont)
+            g = guards_formula(fn.cfg, d, _nonempty_atomizer(prog, k_))
+            atoms = ex.f_atoms(g)
+            if 'ne' in atoms and implies(g, ex.f_atom('ne')):
+                rep.ok('R07u', d, fn, what, 'guarded by a non-emptiness test of the same container')
+            elif [a_ for a_ in atoms if isinstance(a_, tuple) and a_ and a_[0] == 'opaque']:
+                rep.info('R07u', d, fn, what, 'guards outside the idiom table')
+            else:
+                rep.violation('R07u', d, fn, what, '`%s` is evaluated although `%s` may be empty (no emptiness test on the way): for an empty std::vector this reads through a null pointer' % (
+                    d.text(40), cont.text(30)), key='R07u|%s|%d' % (fn.g, d.line))
+    return n
+
+
 def r07l(rep, prog, only_files=None):
     """integer division / modulo whose divisor is the size of a container (or a count) that can be zero for a valid input - a forest has no
     feedback vertices, no candidate cycles, no trees - is a division by zero (SIGFPE).  Flagged when the divisor is `X.size()` / `num_vertices` /
@@ -1086,6 +1155,7 @@ def run(rep, tier):
     rep.rule('R07r', 'no reference to a vector element is used after the vector may have reallocated', floor=0)
     rep.rule('R07s', 'the circuit table of the isometric builder is never dereferenced at end()', floor=0)
     rep.rule('R07t', 'sorted-range algorithms only see sorted ranges', floor=0)
+    rep.rule('R07u', 'front() / back() / *max_element only on containers tested non-empty', floor=0)
     rep.rule('R07o', 'comparators handed to std::sort and the other ordering algorithms are irreflexive', floor=2)
     rep.rule('R07j', 'no recursion along the graph in library functions', floor=0)
     rep.rule('R06d', 'the scratch maps of the closing-path search are private to each search (no stale labels, no sharing between TBB tasks)', floor=2)
@@ -1130,6 +1200,7 @@ def run(rep, tier):
         r07r(rep, prog)
         r07s(rep, prog)
         r07t(rep, prog)
+        r07u(rep, prog)
         r07e(rep, prog)
         from . import c04
         sub4 = type(rep)(rep.prop, rep.tier)
